@@ -241,6 +241,20 @@ def gather_inputs(ctx, pid, n_gen, decorated_share=0.6, density=(0.05, 0.4), lin
             items.append(it["twin"])
     ctx.decorate_failed = failed
     items += base
+    # one comment at every documented placeholder of a program with every node kind, in each style
+    ttoks = lex_many([decorate.TEMPLATE.encode()], pos=True)[0]
+    n_slot = 0
+    if ttoks is not None:
+        for name, kind, style, text, twin in decorate.one_comment_per_slot(rng, ttoks):
+            it = {"label": "slot:%s:%s" % (name, style), "src": text.encode(), "origin": "slot", "slot": name}
+            items.append(it)
+            dec.stats[name] = dec.stats.get(name, 0) + 1
+            n_slot += 1
+            if twin is not None:
+                it["inline_line_comments"] = 1
+                it["twin"] = {"label": "slot:%s:%s(twin)" % (name, style), "src": twin.encode(), "origin": "slot", "slot": name}
+                items.append(it["twin"])
+    ctx.slot_items = n_slot
     return items
 
 
@@ -394,7 +408,11 @@ def plan_pairs(ctx, items, n_random):
         confs = []
         if o == "corpus":
             confs.append(("stored", it.get("conf", {})))
-        if o in ("repo", "focus", "corpus", "repo+dec", "focus+dec"):
+        if o == "slot":
+            confs += [("default", {}), ("comment_style=slash", {"comment_style": "slash"}),
+                      ("align+tab+narrow", {"align_trailing_comment": True, "indent_style": "tab", "line_width": 20,
+                                            "align_declaration_property": True})]
+        elif o in ("repo", "focus", "corpus", "repo+dec", "focus+dec"):
             confs += flips
         else:
             confs.append(("default", {}))
@@ -609,6 +627,7 @@ class Pipeline:
             "decorate_failed": getattr(ctx, "decorate_failed", 0),
             "generator_stats": dict(sorted(getattr(ctx, "gen_stats", {}).items())),
             "inputs_with_inline_line_comments": sum(1 for it in self.items if it.get("twin")),
+            "one_comment_per_slot_inputs": getattr(ctx, "slot_items", 0),
         })
         return cov
 
